@@ -1015,8 +1015,7 @@ def run(ctx):
             hdr = {k: v for k, v in rec.items() if k != 'ev'}
             path = 'pool' if any(e['c'] != 'consumer' for e in rec['ev']) else 'caller-thread'
             ctx.violation({'kind': 'trace-rejected' if 'not a behaviour' in why else 'trace-invariant', 'why': why,
-                           'path': path, 'mode': 'raise' if rec['raise'] else 'result',
-                           'op': [nxt['c'] if nxt and nxt['c'] == 'consumer' else 'worker', nxt['op'], nxt['q']] if nxt else None},
+                           'path': path, 'mode': 'raise' if rec['raise'] else 'result'},
                           'recorded execution %s: matched %d of %d events of call %s, next event %s' % (
                               why, upto, len(rec['ev']), hdr, {k: nxt[k] for k in ('c', 'op', 'q', 'item')} if nxt else None),
                           {'call': hdr, 'schedule': [e['c'] for e in rec['ev']], 'variants': variants, 'matched': upto})
@@ -1081,4 +1080,6 @@ def replay(ctx, data):
         rc = 1
     if rc:
         print('VIOLATION property=C15 replay=(given)')
+    import shutil
+    shutil.rmtree(ctx.workdir, ignore_errors=True)
     return rc
